@@ -30,21 +30,33 @@ Fam(N, graphs, Status, Lims, Concs, Skips, HLs, Oers, Provs) ==
 \* the OnError behaviour only matters when OnError is configured
 Norm(S) == {c \in S : c.oer = "same" \/ "OnError" \in ToSet(c.hs)}
 
-\* ---- M ---------------------------------------------------------------------------------------
-ShapeQ  == Fam(3, GraphsOn(3), St2, -1..2, {1, 2}, BOOLEAN, HL_Shape, {"same"}, {TRUE})
-HandQ   == Fam(2, GraphsOn(2), St3, {-1}, {1, 2}, {FALSE}, ListsUpTo(2), AllOers, BOOLEAN)
-MQuick  == Norm(ShapeQ \cup HandQ)
+\* TLC evaluates every parameterless constant definition at start-up, whatever the configuration uses; the
+\* families therefore take a dummy parameter and the configuration selects one by name (CONSTANT Family).
+CONSTANT Family
 HL_Miss == {<<>>, <<"IgnoreMissing">>}
-MShape4 == Norm(Fam(4, GraphsOn(4), St2, {-1, 1, 2}, {2}, {FALSE}, HL_Miss, {"same"}, {TRUE}))
-MConc3  == Norm(Fam(3, GraphsOn(3), St2, -1..2, {3}, {FALSE}, HL_Shape, {"same"}, {TRUE}))
-MHand   == Norm(Fam(2, GraphsOn(2), St3, {-1}, {1, 2}, {FALSE}, ListsUpTo(4), AllOers, BOOLEAN))
-MDev    == Norm(Fam(3, GraphsOn(3), St2, {-1}, {2}, {FALSE}, HL_Shape, {"same"}, {TRUE}))
-
-\* ---- G (sequential walks only) ---------------------------------------------------------------
 RootOk(S) == {c \in S : c.status[1] = "ok"}
 ConnG(N)  == {g \in GraphsOn(N) : Connected(g)}
-GShapeQ == Fam(3, GraphsOn(3), St2, -1..2, {0, 1}, BOOLEAN, HL_Shape, {"same"}, {TRUE})
-GHandQ  == RootOk(Fam(3, ConnG(3), St3, {-1}, {1}, {FALSE}, ListsUpTo(2), AllOers, {TRUE}))
-GShapeT == Fam(4, GraphsOn(4), St2, -1..3, {1}, {FALSE}, HL_Miss, {"same"}, {TRUE}) \cup GShapeQ
-GHandT  == Fam(3, ConnG(3), St3, {-1}, {1}, {FALSE}, ListsUpTo(4), AllOers, {TRUE})
+
+\* ---- M ---------------------------------------------------------------------------------------
+ShapeQ(u) == Fam(3, GraphsOn(3), St2, -1..2, {1, 2}, BOOLEAN, HL_Shape, {"same"}, {TRUE})
+HandQ(u)  == Fam(2, GraphsOn(2), St3, {-1}, {1, 2}, {FALSE}, ListsUpTo(2), AllOers, BOOLEAN)
+MShape4(u) == Fam(4, GraphsOn(4), St2, {-1, 1, 2}, {2}, {FALSE}, HL_Miss, {"same"}, {TRUE})
+MConc3(u)  == Fam(3, GraphsOn(3), St2, -1..2, {3}, {FALSE}, HL_Shape, {"same"}, {TRUE})
+MHand(u)   == Fam(2, GraphsOn(2), St3, {-1}, {1, 2}, {FALSE}, ListsUpTo(4), AllOers, BOOLEAN)
+MDev(u)    == Fam(3, GraphsOn(3), St2, {-1}, {2}, {FALSE}, HL_Shape, {"same"}, {TRUE})
+
+\* ---- G (sequential walks only) ---------------------------------------------------------------
+GShapeQ(u) == Fam(3, GraphsOn(3), St2, -1..2, {0, 1}, BOOLEAN, HL_Shape, {"same"}, {TRUE})
+GHandQ(u)  == RootOk(Fam(3, ConnG(3), St3, {-1}, {1}, {FALSE}, ListsUpTo(2), AllOers, {TRUE}))
+GShapeT(u) == Fam(4, GraphsOn(4), St2, -1..3, {1}, {FALSE}, HL_Miss, {"same"}, {TRUE}) \cup GShapeQ(u)
+GHandT(u)  == Fam(3, ConnG(3), St3, {-1}, {1}, {FALSE}, ListsUpTo(4), AllOers, {TRUE})
+
+MCSel == Norm(CASE Family = "MQuick"  -> ShapeQ(0) \cup HandQ(0)
+                [] Family = "MShape4" -> MShape4(0)
+                [] Family = "MConc3"  -> MConc3(0)
+                [] Family = "MHand"   -> MHand(0)
+                [] Family = "MDev"    -> MDev(0)
+                [] Family = "GQuick"    -> GShapeQ(0) \cup GHandQ(0)
+                [] Family = "GThorough" -> GShapeT(0) \cup GHandT(0)
+                [] OTHER -> {})
 =============================================================================
